@@ -42,6 +42,8 @@ pub enum Op {
     Threads,
     /// setVariable(name, value text) - only sent while the client believes the machine is halted
     SetVariable(String, String),
+    /// several run-control requests written back to back, without waiting for responses or events
+    Pipelined(Vec<String>),
 }
 
 impl Op {
@@ -61,6 +63,7 @@ impl Op {
             Op::SetBreakpoints(b) => json!({"op": "setBreakpoints", "lines": b.iter().map(|(l, c)| json!([l, c])).collect::<Vec<_>>()}),
             Op::Threads => json!({"op": "threads"}),
             Op::SetVariable(n, t) => json!({"op": "setVariable", "name": n, "value": t}),
+            Op::Pipelined(c) => json!({"op": "pipelined", "cmds": c}),
         }
     }
     fn from_json(v: &Value) -> Option<Op> {
@@ -84,6 +87,7 @@ impl Op {
                     .collect::<Option<Vec<_>>>()?,
             ),
             "threads" => Op::Threads,
+            "pipelined" => Op::Pipelined(v.get("cmds")?.as_array()?.iter().map(|c| c.as_str().map(|x| x.to_string())).collect::<Option<Vec<_>>>()?),
             "setVariable" => Op::SetVariable(v.get("name")?.as_str()?.to_string(), v.get("value")?.as_str()?.to_string()),
             _ => return None,
         })
@@ -241,14 +245,15 @@ pub fn gen_case(seed: u64, k: u64) -> Case {
     let initial_bps = pick_bps(&mut r);
     // swarm weights
     let mut w: Vec<u32> = (0..13).map(|_| 1 + r.below(6) as u32).collect();
+    w.push(r.below(3) as u32);
     // one case in four is a "breakpoint churn" session: the breakpoint list is replaced again and
     // again while the machine runs (races between the session's write and the machine thread's reads)
     let mut fast_client = false;
     if r.chance(1, 4) {
-        w = vec![4, 1, 5, 1, 1, 1, 1, 0, 2, 1, 12, 0, 1];
+        w = vec![4, 1, 5, 1, 1, 1, 1, 0, 2, 1, 12, 0, 1, 0];
     } else if r.chance(1, 3) {
         // one case in four is a scripted stepper: wait for a stop, step, continue, back to back
-        w = vec![8, 1, 8, 5, 4, 1, 1, 0, 1, 1, 1, 0, 1];
+        w = vec![8, 1, 8, 5, 4, 1, 1, 0, 1, 1, 1, 0, 1, 4];
         fast_client = true;
     }
     let delays: [u64; 8] = [0, 0, 1_000, 10_000, 49_000, 50_000, 51_000, 200_000];
@@ -271,6 +276,10 @@ pub fn gen_case(seed: u64, k: u64) -> Case {
             9 => Op::Evaluate(r.pick_str(&["cpu.a", "cpu.x", "cpu.y", "cpu.a + cpu.x", "cpu.flags.zero", "cpu.flags.carry"]).to_string()),
             10 => Op::SetBreakpoints(pick_bps(&mut r)),
             11 => Op::Threads,
+            13 => {
+                let n = r.range(2, 3);
+                Op::Pipelined((0..n).map(|_| r.pick_str(&["pause", "continue", "continue", "next", "stepIn"]).to_string()).collect())
+            }
             _ => {
                 let name = r.pick_str(&["A", "X", "Y", "A", "X", "PC"]).to_string();
                 let n = r.below(256);
@@ -490,6 +499,7 @@ pub struct Verdict {
     pub notes: Vec<String>,
     pub ops_done: u64,
     pub set_variables: u64,
+    pub pipelined: u64,
 }
 
 #[derive(Clone, Debug, PartialEq)]
@@ -516,6 +526,8 @@ struct Session<'a> {
     /// breakpoints set while running: (bp, index observed after the response)
     run_bps_added: Vec<((usize, Option<usize>), Option<usize>)>,
     pause_sent: bool,
+    /// the next stop is looked at twice whatever the client's pacing
+    force_second_look: bool,
     path: String,
 }
 
@@ -606,7 +618,8 @@ impl<'a> Session<'a> {
         // three (a scripted client: one out of four); at the others the client goes on at once, so that its next requests reach the session
         // within one 50 ms poll of the machine thread (a scripted or pipelining client)
         let linger = rng::derive(self.case.seed, "c19.second_look", self.v.stops_observed) % 12;
-        if linger >= if self.case.fast_client { 9 } else { 4 } {
+        let forced = std::mem::take(&mut self.force_second_look);
+        if forced || linger >= if self.case.fast_client { 9 } else { 4 } {
             clock::sleep(Duration::from_millis(51));
             if self.query_registers(Some(idx))?.is_none() {
                 self.view = View::Unknown;
@@ -884,6 +897,58 @@ impl<'a> Session<'a> {
             (Op::Evaluate(e), _) => {
                 let _ = self.dap.request("evaluate", json!({"expression": e}))?;
             }
+            (Op::Pipelined(cmds), view) if view == View::Running || matches!(view, View::Stopped(_)) => {
+                // A client that does not wait: the requests are on the wire before any of them is answered. Which
+                // of them the session handles before the machine's own events is up to the scheduler; whatever the
+                // order, the LAST run-state event the client receives must describe the machine: after `stopped`
+                // it is halted. (A run that contains such a burst is not judged for run-overs and stop causes.)
+                self.v.pipelined += 1;
+                while self.dap.take_event("stopped").is_some() {}
+                while self.dap.take_event("continued").is_some() {}
+                let mut seqs = vec![];
+                for c in cmds {
+                    self.dap.send_only(c, json!({"threadId": 1}))?;
+                    seqs.push(self.dap.last_seq());
+                }
+                // every request answered, then the events they caused (the session sends them right after
+                // the response or, for machine events, within one turn of its loop)
+                self.dap.await_responses(&seqs)?;
+                self.run_from = None;
+                self.pause_sent = true;
+                // Every request handler has put the machine events it causes (Running -> Stopped, Stopped ->
+                // Running) into the session's machine-event channel before its response was written. The session
+                // turns them into DAP events in later turns of its loop, where it picks at random among the ready
+                // channels. 48 further request/response round trips are 48 such turns with the event channel ready
+                // in each: the chance that one of those events is still waiting afterwards is 2^-48 - no clock
+                // is involved. (Stops the machine thread causes itself, e.g. a breakpoint, may of course still follow.)
+                for _ in 0..48 {
+                    self.dap.request("threads", Value::Null)?;
+                }
+                if self.dap.take_event("terminated").is_some() {
+                    self.v.terminated = true;
+                    self.view = View::Terminated;
+                    return Ok(());
+                }
+                let last = self
+                    .dap
+                    .pending_events
+                    .iter()
+                    .rev()
+                    .filter_map(|e| e.get("event").and_then(|n| n.as_str()))
+                    .find(|n| *n == "stopped" || *n == "continued")
+                    .map(|n| n.to_string());
+                while self.dap.take_event("stopped").is_some() {}
+                while self.dap.take_event("continued").is_some() {}
+                match last.as_deref() {
+                    Some("stopped") => {
+                        self.count("last_event_stopped_after_burst");
+                        self.force_second_look = true;
+                        self.on_stopped(None)?;
+                    }
+                    // `continued`, or no event at all (yet): the client claims nothing about the machine
+                    _ => self.view = View::Running,
+                }
+            }
             (Op::SetVariable(name, text), View::Stopped(i)) => {
                 let r = self.dap.request("setVariable", json!({"variablesReference": 1, "name": name, "value": text}))?;
                 let accepted = r.get("success").and_then(|s| s.as_bool()) == Some(true);
@@ -1020,6 +1085,7 @@ pub fn scenario(case: &Case, slot: &Arc<StdMutex<Option<Verdict>>>) {
         run_bps_ever: vec![],
         run_bps_added: vec![],
         pause_sent: false,
+        force_second_look: false,
         path: path.clone(),
     };
     let run = (|| -> Result<(), ClientErr> {
@@ -1295,7 +1361,7 @@ pub fn main(cli: &Cli) -> i32 {
                 for (k2, c) in [
                     ("stops_observed", v.stops_observed), ("pauses", v.pauses), ("steps", v.steps), ("resumes", v.resumes),
                     ("breakpoint_changes_while_running", v.bp_changes_while_running), ("steps_while_running", v.steps_while_running), ("terminated", v.terminated as u64),
-                    ("client_ops", v.ops_done), ("reference_instructions", v.trace_len as u64), ("set_variables_accepted", v.set_variables),
+                    ("client_ops", v.ops_done), ("reference_instructions", v.trace_len as u64), ("set_variables_accepted", v.set_variables), ("pipelined_bursts", v.pipelined),
                 ] {
                     *acc.counters.entry(k2.to_string()).or_insert(0) += c;
                 }
